@@ -66,7 +66,7 @@ def rule_key(ctx):
     ins = prog.one('callbacks::common::insert_unspents')
     rem = prog.one('callbacks::common::remove_unspents')
     ctx.touch(ins, rem)
-    ic = [c for c in ins.calls if mir.method_name(c.name) == 'insert']
+    ic = [c for c in ins.calls if mir.method_name(c.name) in ('insert', 'entry') and 'HashMap' in c.name]
     rc = [c for c in rem.calls if mir.method_name(c.name) == 'remove']
     if len(ic) != 1 or len(rc) != 1:
         raise Unrecognised('key', 'map insert/remove call not found in the helpers')
@@ -112,7 +112,15 @@ def rule_key(ctx):
 def rule_filter(ctx):
     prog = ctx.prog
     ins = prog.one('callbacks::common::insert_unspents')
+    mut_calls = [c for c in ins.calls if c.args and c.args[0]['k'] in ('copy', 'move') and c.args[0]['place']['ty'].startswith('&mut') and
+                 'HashMap' in c.args[0]['place']['ty'] and canon(ins.op_expr(c.args[0])) == 'a3']
+    kinds = sorted(mir.method_name(c.name) for c in mut_calls)
+    ctx.check('filter', 'later-output-replaces-earlier', kinds == ['insert'], mut_calls[0] if mut_calls else ins,
+              'the map is updated with HashMap::insert (an equal outpoint key is overwritten)',
+              bad_detail='the map is updated through %s: with the entry/or_insert API (or any non-overwriting update) an earlier output with the same txid and index is kept instead of being replaced by the later one' % kinds)
     ic = [c for c in ins.calls if mir.method_name(c.name) == 'insert']
+    if not ic:
+        return
     out = 'each(enumerate(a1.value.outputs))'
     g = [x for x in util.guards_at(ins, ic[0].bb) if 'next(' not in x]
     ctx.check('filter', 'only-address-bearing', g == ['%s.1.script.address is Some' % out], ic[0], 'insert under %s' % g,
@@ -197,7 +205,7 @@ def run(ctx):
     ctx.guard('owner', rule_owner)
     ctx.floor('order', 8)
     ctx.floor('key', 12)
-    ctx.floor('filter', 4)
+    ctx.floor('filter', 5)
     ctx.floor('inputs', 4)
     ctx.floor('dump', 9)
     ctx.floor('owner', 4)
